@@ -1374,6 +1374,24 @@ pub fn handle_trailer(
     if !end_stream {
         return Err((H2Error::ProtocolError, false));
     }
+    // HTTP/1.1 can only carry trailers after a chunked body, and the trailer
+    // section starts after the last-chunk line (`0\r\n`). On this path no DATA
+    // frame carried END_STREAM, so nothing has closed the body yet:
+    // - chunked framing: push the end-of-body marker now, BEFORE the trailer
+    //   fields, so the H1 converter writes `0\r\n` then the trailers (it used
+    //   to write the trailer lines where a chunk-size line is expected);
+    // - Content-Length framing: the trailer fields cannot be represented; they
+    //   are dropped here (they used to be written after the body, where the
+    //   backend reads them as the beginning of the next request).
+    let length_framed = matches!(kawa.body_size, BodySize::Length(_));
+    if kawa.body_size == BodySize::Chunked {
+        kawa.push_block(Block::Flags(Flags {
+            end_body: true,
+            end_chunk: false,
+            end_header: false,
+            end_stream: false,
+        }));
+    }
     let max_header_fields = max_header_fields as usize;
     let mut invalid_trailers = false;
     let mut budget_exceeded = false;
@@ -1458,6 +1476,9 @@ pub fn handle_trailer(
             b"x-real-ip" | b"x-forwarded-for" | b"forwarded" | b"x-request-id"
         ) {
             incr!(names::h2::TRAILER_SPOOF_VECTOR_ELIDED);
+            return;
+        }
+        if length_framed {
             return;
         }
         let start = kawa.storage.end as u32;
